@@ -16,13 +16,12 @@
       [C01_domain e = true -> in_domain e]) that holds at every point the specification visits
       along an unambiguous line ([C01_domain_along_runs]).
 
-    Two script mechanisms that [Spec.KnownC01] describes were repaired in /repo (1567cbe, df274e8)
-    while this package was built; their predicates stay as classifiers (a repaired mechanism that
-    comes back is a violation).  A third one, [KnownC01.greedy_shadow] (the within-word matcher is
-    greedy: a literal that begins the rest of a word shadows the undefined nonterminal expected at
-    the same point), was found while proving the statement for within-word items; it is a
-    hypothesis of the general statement, and [ex_C01_greedy_shadow_witness] shows, inside the
-    model, that the statement fails without it.
+    The three script mechanisms that [Spec.KnownC01] describes were repaired in /repo while this
+    package was built (1567cbe, df274e8, and the greedy-shadow fix: the within-word matcher now
+    tries the undefined nonterminal expected at a point before the literals); their predicates stay
+    as classifiers (a repaired mechanism that comes back is a violation).  The third one,
+    [KnownC01.greedy_shadow], was found while proving the statement for within-word items;
+    [ex_C01_greedy_shadow_witness] is its regression example (the repaired script answers [z]).
 
     [C01_bash_meaning_literal] and [C01_bash_meaning_toplevel] (below) prove the statement about the
     script itself -- [BashSem.run_from Repaired] on [Tables.all_tables Bash (Driver.compile_valid v)]
@@ -35,7 +34,7 @@
     literals.  [C01_bash_meaning] proves the general statement [C01_bash_meaning_statement]:
     commands and undefined nonterminals inside words included, over the whole decided domain (which
     was tightened for them: one source per piece text, one level per command at a within-word
-    point, nothing after a nonterminal inside a word), outside [ambiguous_run] and [greedy_shadow];
+    point, nothing after a nonterminal inside a word), outside [ambiguous_run];
     [C01_bash_meaning_wordbreaks] is the corollary for COMP_WORDBREAKS default and empty. *)
 From CG Require Import Model.Dfa Model.Tables Model.Glob Model.BashSem Model.Driver.
 From CG Require Import Base.Prelude Model.Ast Model.Check Spec.Rx Spec.Meaning Spec.KnownC01 Spec.Domain
@@ -47,7 +46,7 @@ From CG Require Import Proofs.SubTreeFacts Proofs.BashMeaningSub Proofs.SubCheck
 (** The full statement: the interpreter of the script of /repo HEAD on the tables of the model
     pipeline against the specification, for every validated tree in the decided domain -- literals,
     commands, undefined nonterminals, within-word expressions over the same kinds of pieces --
-    outside [ambiguous_run] and [greedy_shadow].  Hypotheses besides the decided domain:
+    outside [ambiguous_run].  Hypotheses besides the decided domain:
     - [sub_tree]: the shape check.rs leaves behind for bash (no description nodes, no zsh-only
       compadd commands, no within-word expression inside a within-word expression);
     - the literal orders handed to the emitter are valid ([NoDup om], [valid_literal_order],
@@ -70,7 +69,6 @@ Definition C01_bash_meaning_statement : Prop :=
     (forall cm cid, Tables.index_of cm (a_commands a) = Some cid ->
                     Spec.Invocations.spec_candidates (cmd_output benv cid) = candidates en cm) ->
     ambiguous_run en (start (v_expr v)) ws = false ->
-    greedy_shadow (v_expr v) en ws = false ->
     match complete (v_expr v) en ws p with
     | None => exists log, run_from Repaired (d_start (c_main c)) a benv ws p = Ok (mkresult 1 [] log)
     | Some (req, al) =>
@@ -492,11 +490,12 @@ Example ex_C01_mixed_layer_inhabited :
 Proof. vm_compute. repeat split; reflexivity. Qed.
 Print Assumptions ex_C01_mixed_layer_inhabited.
 
-(** The third mechanism, inside the model: [cmd --x=(abc|<U>) z;] is in the decided domain, the line
-    [--x=abcd] is not ambiguous, the specification expects [z] after it (the nonterminal matches
-    any text), the interpreter of the /repo HEAD script on the tables of the model pipeline
-    returns status 1 (it consumed [abc] and is stuck on [d]); [--x=abc] and [--x=q] are read as the
-    specification says.  [KnownC01.greedy_shadow] flags exactly the first line. *)
+(** Regression example of the third mechanism (repaired): [cmd --x=(abc|<U>) z;] is in the decided
+    domain, the line [--x=abcd] is not ambiguous, the specification expects [z] after it (the
+    nonterminal matches any text).  Before the repair the within-word matcher consumed [abc], was
+    stuck on [d] and the script returned status 1; [KnownC01.greedy_shadow] still flags exactly
+    that line (it describes the old, greedy reading).  The interpreter of the repaired script tries
+    the nonterminal first and answers [z], as the specification does. *)
 Definition exg_e : expr :=
   Sequence [Subword (Sequence [Terminal "--x=" None 0 exl_sp;
                                Alternative [Terminal "abc" None 0 exl_sp; NontermRef "U" 0 exl_sp] exl_sp] exl_sp) 0 exl_sp;
@@ -515,7 +514,7 @@ Example ex_C01_greedy_shadow_witness :
           /\ ambiguous_run exs_en (start exg_e) ["--x=abcd"]%string = false
           /\ greedy_shadow exg_e exs_en ["--x=abcd"]%string = true
           /\ complete exg_e exs_en ["--x=abcd"] "" = Some (["z "], ["z "])
-          /\ run_from Repaired (d_start (c_main c)) a exs_benv ["--x=abcd"] "" = Ok (mkresult 1 [] [])
+          /\ run_from Repaired (d_start (c_main c)) a exs_benv ["--x=abcd"] "" = Ok (mkresult 0 ["z "] [])
           /\ greedy_shadow exg_e exs_en ["--x=abc"]%string = false
           /\ run_from Repaired (d_start (c_main c)) a exs_benv ["--x=abc"] "" = Ok (mkresult 0 ["z "] [])
           /\ greedy_shadow exg_e exs_en ["--x=q"]%string = false
@@ -558,9 +557,9 @@ Print Assumptions ex_C01_inhabited.
 (** * C01_bash_meaning: the statement is a theorem. *)
 Theorem C01_bash_meaning : C01_bash_meaning_statement.
 Proof.
-  intros pick fuel v c om os nd a benv en ws p Htree Hne Hc Hall Hord Hvalid Hsords Hdet Hdom Henvok Hic Hwb Hbok Hplain Hprint Henv Hamb Hgs.
+  intros pick fuel v c om os nd a benv en ws p Htree Hne Hc Hall Hord Hvalid Hsords Hdet Hdom Henvok Hic Hwb Hbok Hplain Hprint Henv Hamb.
   pose proof (bash_meaning_all pick fuel v c om os nd a benv en ws p Htree Hne Hc Hall Hord Hvalid Hsords Hdet Hdom Henvok Hic Hwb Hbok
-                Hplain Hprint Henv Hamb Hgs) as H.
+                Hplain Hprint Henv Hamb) as H.
   destruct (complete (v_expr v) en ws p) as [[req al] |]; [| exact H].
   destruct H as [reply [log [Hr [Hiff Hincl]]]]. exists reply, log. split; [exact Hr | split].
   - intros x Hx. apply Hiff. exact Hx.
@@ -584,7 +583,6 @@ Theorem C01_bash_meaning_wordbreaks :
     (forall cm cid, Tables.index_of cm (a_commands a) = Some cid ->
                     Spec.Invocations.spec_candidates (cmd_output benv cid) = candidates en cm) ->
     ambiguous_run en (start (v_expr v)) ws = false ->
-    greedy_shadow (v_expr v) en ws = false ->
     match complete (v_expr v) en ws p with
     | None => exists log, run_from Repaired (d_start (c_main c)) a benv ws p = Ok (mkresult 1 [] log)
     | Some (req, al) =>
@@ -592,7 +590,7 @@ Theorem C01_bash_meaning_wordbreaks :
                           /\ incl req reply /\ incl reply al
     end.
 Proof.
-  intros wb Hwb pick fuel v c om os nd a outs ens ws p benv en Htree Hne Hc Hall Hord Hvalid Hsords Hdet Hdom Henvok Hplain Hprint Henv Hamb Hgs.
+  intros wb Hwb pick fuel v c om os nd a outs ens ws p benv en Htree Hne Hc Hall Hord Hvalid Hsords Hdet Hdom Henvok Hplain Hprint Henv Hamb.
   apply (C01_bash_meaning pick fuel v c om os nd a benv en ws p); try assumption; try reflexivity.
   unfold benv. cbn [BashSem.e_wordbreaks]. destruct Hwb as [-> | ->]; reflexivity.
 Qed.
@@ -610,7 +608,6 @@ Check C01_bash_meaning_wordbreaks :
     (forall cm cid, Tables.index_of cm (a_commands a) = Some cid ->
                     Spec.Invocations.spec_candidates (cmd_output benv cid) = candidates en cm) ->
     ambiguous_run en (start (v_expr v)) ws = false ->
-    greedy_shadow (v_expr v) en ws = false ->
     match complete (v_expr v) en ws p with
     | None => exists log, run_from Repaired (d_start (c_main c)) a benv ws p = Ok (mkresult 1 [] log)
     | Some (req, al) =>
